@@ -27,6 +27,8 @@ pub enum Mutation {
     Stomp2 { off: usize, val: u8 },
     /// overwrite byte `off` with `val`
     SetByte { off: usize, val: u8 },
+    /// overwrite the `len` bytes from `off` (clipped to the image) with `val`: an erased / zeroed block
+    Fill { off: usize, len: usize, val: u8 },
 }
 
 impl Mutation {
@@ -38,6 +40,8 @@ impl Mutation {
             Mutation::Stomp2 { .. } => "stompFF",
             Mutation::SetByte { val: 0, .. } => "set00",
             Mutation::SetByte { .. } => "setFF",
+            Mutation::Fill { val: 0, .. } => "fill00",
+            Mutation::Fill { .. } => "fillFF",
         }
     }
 
@@ -56,6 +60,12 @@ impl Mutation {
                 v[off + 1] = val;
             }
             Mutation::SetByte { off, val } => v[off] = val,
+            Mutation::Fill { off, len, val } => {
+                let end = (off + len).min(v.len());
+                for b in &mut v[off..end] {
+                    *b = val;
+                }
+            }
         }
     }
 
@@ -74,6 +84,7 @@ impl Mutation {
                 }
             }
             Mutation::SetByte { off, val } => (img[off] != val).then_some(off),
+            Mutation::Fill { off, len, val } => (off..(off + len).min(img.len())).find(|i| img[*i] != val),
         }
     }
 
@@ -92,6 +103,7 @@ impl Mutation {
                 }
             }
             Mutation::SetByte { off, val } => (img[off] != val).then_some(off + 1),
+            Mutation::Fill { off, len, val } => (off..(off + len).min(img.len())).rev().find(|i| img[*i] != val).map(|i| i + 1),
         }
     }
 
@@ -101,6 +113,7 @@ impl Mutation {
             Mutation::BitFlip { byte, bit } => json!({"kind": "bitflip", "byte": byte, "bit": bit}),
             Mutation::Stomp2 { off, val } => json!({"kind": "stomp2", "off": off, "val": val}),
             Mutation::SetByte { off, val } => json!({"kind": "setbyte", "off": off, "val": val}),
+            Mutation::Fill { off, len, val } => json!({"kind": "fill", "off": off, "len": len, "val": val}),
         }
     }
 
@@ -111,6 +124,7 @@ impl Mutation {
             "bitflip" => Some(Mutation::BitFlip { byte: u("byte")? as usize, bit: u("bit")? as u8 }),
             "stomp2" => Some(Mutation::Stomp2 { off: u("off")? as usize, val: u("val")? as u8 }),
             "setbyte" => Some(Mutation::SetByte { off: u("off")? as usize, val: u("val")? as u8 }),
+            "fill" => Some(Mutation::Fill { off: u("off")? as usize, len: u("len")? as usize, val: u("val")? as u8 }),
             _ => None,
         }
     }
@@ -122,7 +136,7 @@ pub struct MutationSet {
     pub truncations: bool,
     /// every single-bit flip
     pub bitflips: bool,
-    /// every 2-byte window set to 00 and to FF
+    /// every 2-byte window, and every 4-, 8- and 32-byte block, set to 00 and to FF
     pub stomps: bool,
     /// every single byte set to 00 and to FF
     pub setbytes: bool,
@@ -147,6 +161,13 @@ pub fn all_mutations(len: usize, set: MutationSet) -> Vec<Mutation> {
         for off in 0..len.saturating_sub(1) {
             v.push(Mutation::Stomp2 { off, val: 0x00 });
             v.push(Mutation::Stomp2 { off, val: 0xFF });
+        }
+        // erased / zeroed blocks of 4, 8 and 32 bytes at every offset (clipped at the end of the image)
+        for width in [4usize, 8, 32] {
+            for off in 0..len.saturating_sub(2) {
+                v.push(Mutation::Fill { off, len: width, val: 0x00 });
+                v.push(Mutation::Fill { off, len: width, val: 0xFF });
+            }
         }
     }
     if set.setbytes {
